@@ -10,23 +10,29 @@ Local Open Scope N_scope.
 (* 1. For EVERY history (puts plain / chunked / embedded / instant-indexed, updates, deletes, commits,
    reopen, crash + replay, every timing of automatic checkpoints) that ends fully committed: the
    handle reopened read-write, the read-only handle and the handle opened after
-   doctor{rebuild_lex_index, rebuild_time_index} hold the frame table, the Tantivy documents, the
-   vector index (and whether it is enabled) and the time index of the live handle; their sketch
-   track is the live one written and read back. *)
+   doctor{rebuild_lex_index, rebuild_time_index, rebuild_vec_index} (any subset) hold the frame table,
+   the Tantivy documents, the vector index and the time index of the live handle; vector search is
+   enabled exactly when it is on the live handle -- except that rebuild_vec_index leaves it enabled
+   (with the same, possibly empty, index); their sketch track is the live one written and read back. *)
 Theorem C28_reopened_handles_hold_the_live_indexes :
-  forall ops extra lexf timef,
+  forall ops extra lexf timef vecf,
     let p := fst (prun pstore0 ops) in
     Quiet p ->
     same_idx (handle_rw p extra) (handle_live p) /\
     same_idx (handle_ro p) (handle_live p) /\
-    same_idx (handle_doctor p lexf timef false) (handle_live p) /\
+    (let h := handle_doctor p lexf timef vecf in
+     v_frames h = v_frames (handle_live p) /\ v_lex h = v_lex (handle_live p) /\ v_vec h = v_vec (handle_live p) /\
+     v_tix h = v_tix (handle_live p) /\ v_vec_on h = vecf || v_vec_on (handle_live p)) /\
+    ((vecf = true -> v_vec_on (handle_live p) = true) -> same_idx (handle_doctor p lexf timef vecf) (handle_live p)) /\
     v_sk (handle_rw p extra) = sk_read (sk_written (sk p)) /\
     v_sk (handle_ro p) = sk_read (sk_written (sk p)) /\
-    v_sk (handle_doctor p lexf timef false) = sk_read (sk_written (sk p)).
+    v_sk (handle_doctor p lexf timef vecf) = sk_read (sk_written (sk p)).
 Proof.
-  intros ops extra lexf timef p HQ. pose proof (prun_inv ops) as HP. fold p in HP.
+  intros ops extra lexf timef vecf p HQ. pose proof (prun_inv ops) as HP. fold p in HP.
   destruct (reopen_same p extra HP HQ) as [A1 A2]. destruct (readonly_same p HP HQ) as [B1 B2].
-  destruct (doctor_same p lexf timef HP HQ) as [C1 C2]. tauto.
+  destruct (doctor_sets p lexf timef vecf HP HQ) as (C1 & C2 & C3 & C4 & C5 & C6).
+  split; [exact A1|]. split; [exact B1|]. split; [cbv zeta; tauto|]. split; [|tauto].
+  intros Hv. apply (doctor_same p lexf timef vecf HP HQ Hv).
 Qed.
 Print Assumptions C28_reopened_handles_hold_the_live_indexes.
 
@@ -34,30 +40,48 @@ Print Assumptions C28_reopened_handles_hold_the_live_indexes.
    search over the engine's documents with the optional frame filter, the per-hit post-evaluation,
    the sketch test of one entry, the vector ranking): search, vector search and timeline return the
    same lists on all four handles -- outside the class of F-C39-1 (pre-filter used and sketch ids
-   not 0,1,2,..) and with doctor's rebuild_vec_index off (F-C14-1). *)
+   not 0,1,2,..).  doctor may rebuild any subset of lex / time / vec; when it rebuilds the vector
+   index of a memory that has none, lexical search and timeline still agree and vector search answers
+   the empty list instead of VecNotEnabled (last clause). *)
 Theorem C28_same_answers_outside_known :
   forall (query : Type) (engine_search : list N -> option (list N) -> query -> list N)
          (post_hit : frame -> query -> bool) (sk_pass : N -> query -> bool) (has_text : query -> bool)
          (vec_rank : list (N * N) -> query -> nat -> list N)
-         ops extra lexf timef no_sketch,
+         ops extra lexf timef vecf no_sketch,
     let p := fst (prun pstore0 ops) in
     Quiet p -> known_class p no_sketch = false ->
-    forall h, h = handle_rw p extra \/ h = handle_ro p \/ h = handle_doctor p lexf timef false ->
+    (forall h, h = handle_rw p extra \/ h = handle_ro p \/
+               (h = handle_doctor p lexf timef vecf /\ (vecf = true -> v_vec_on (handle_live p) = true)) ->
       (forall q, psearch query engine_search post_hit sk_pass has_text h no_sketch q =
                  psearch query engine_search post_hit sk_pass has_text (handle_live p) no_sketch q) /\
       (forall q n, pvec query vec_rank h q n = pvec query vec_rank (handle_live p) q n) /\
-      (forall keep rev lim, ptimeline h keep rev lim = ptimeline (handle_live p) keep rev lim).
+      (forall keep rev lim, ptimeline h keep rev lim = ptimeline (handle_live p) keep rev lim)) /\
+    (let h := handle_doctor p lexf timef true in
+     (forall q, psearch query engine_search post_hit sk_pass has_text h no_sketch q =
+                psearch query engine_search post_hit sk_pass has_text (handle_live p) no_sketch q) /\
+     (forall keep rev lim, ptimeline h keep rev lim = ptimeline (handle_live p) keep rev lim) /\
+     (forall q n, pvec query vec_rank h q n = Some (vec_rank (v_vec (handle_live p)) q n))).
 Proof.
-  intros query es ph sp ht vr ops extra lexf timef ns p HQ HK h Hh.
-  destruct (C28_reopened_handles_hold_the_live_indexes ops extra lexf timef HQ) as (A & B & C & A' & B' & C').
-  fold p in A, B, C, A', B', C'.
+  intros query es ph sp ht vr ops extra lexf timef vecf ns p HQ HK.
   assert (HS : ns = true \/ sk_read (sk_written (sk p)) = sk p).
   { unfold known_class in HK. destruct ns; [left; reflexivity|right]. cbn [negb andb] in HK.
     apply sk_roundtrip_iff. destruct (sk_dense (sk p)); [reflexivity|discriminate]. }
-  apply answers_equal.
-  - destruct Hh as [->|[->| ->]]; assumption.
-  - destruct HS as [HS|HS]; [left; exact HS|right].
-    destruct Hh as [->|[->| ->]]; cbn [handle_live view_of v_sk]; congruence.
+  split.
+  - intros h Hh.
+    destruct (C28_reopened_handles_hold_the_live_indexes ops extra lexf timef vecf HQ) as (A & B & _ & C & A' & B' & C').
+    fold p in A, B, C, A', B', C'.
+    apply answers_equal.
+    + destruct Hh as [->|[->|[-> Hv]]]; [assumption|assumption|apply C; exact Hv].
+    + destruct HS as [HS|HS]; [left; exact HS|right].
+      destruct Hh as [->|[->|[-> Hv]]]; cbn [handle_live view_of v_sk]; congruence.
+  - destruct (C28_reopened_handles_hold_the_live_indexes ops extra lexf timef true HQ) as (_ & _ & (D1 & D2 & D3 & D4 & D5) & _ & _ & _ & D6).
+    fold p in D1, D2, D3, D4, D5, D6. cbv zeta.
+    split; [|split].
+    + intros q. unfold psearch. rewrite D1, D2.
+      destruct HS as [HS|HS]; [rewrite HS; cbn [negb]; rewrite !andb_false_r; reflexivity|].
+      rewrite D6, HS. reflexivity.
+    + intros keep rev lim. unfold ptimeline. rewrite D1, D4. reflexivity.
+    + intros q n. unfold pvec. rewrite D5, D3. reflexivity.
 Qed.
 Print Assumptions C28_same_answers_outside_known.
 
@@ -93,11 +117,26 @@ Theorem C28_sketch_track_survives_iff_dense :
 Proof. exact sk_roundtrip_iff. Qed.
 Print Assumptions C28_sketch_track_survives_iff_dense.
 
-(* doctor{rebuild_vec_index}: the vector index of the doctored handle is empty (F-C14-1) *)
-Theorem C28_doctor_vec_rebuild_empties_known :
-  forall p lexf timef, v_vec (handle_doctor p lexf timef true) = [].
-Proof. exact doctor_vec_empties. Qed.
-Print Assumptions C28_doctor_vec_rebuild_empties_known.
+(* doctor{rebuild_vec_index} (code since 83a83e8): the doctored handle holds the live vector index and
+   vector search is enabled on it *)
+Theorem C28_doctor_vec_rebuild_keeps_the_index :
+  forall ops lexf timef,
+    let p := fst (prun pstore0 ops) in
+    Quiet p ->
+    v_vec (handle_doctor p lexf timef true) = v_vec (handle_live p) /\
+    v_vec_on (handle_doctor p lexf timef true) = true.
+Proof.
+  intros ops lexf timef p HQ. destruct (doctor_sets p lexf timef true (prun_inv ops) HQ) as (_ & _ & H3 & _ & H5 & _).
+  split; [exact H3|exact H5].
+Qed.
+Print Assumptions C28_doctor_vec_rebuild_keeps_the_index.
+
+(* historical: the code before 83a83e8 (finding F-C14-1, now fixed) dropped the index before the
+   rebuild, so the doctored image held no vectors *)
+Lemma C28_doctor_vec_rebuild_emptied_unfixed :
+  forall d frames al lexf timef, k_vec (doctor_unfixed d frames al lexf timef true) = [].
+Proof. exact doctor_unfixed_vec_empties. Qed.
+Print Assumptions C28_doctor_vec_rebuild_emptied_unfixed.
 
 (* 4. Searches between a put and its commit.  In EVERY state of every history (also with pending
    records and temporary documents of instant-indexed puts in the engine), whatever the engine
@@ -183,6 +222,7 @@ Example C28_nonvacuous :
   v_lex (handle_live p) = [0; 1; 2; 5; 6] /\ map fst (v_vec (handle_live p)) = [0; 5; 6] /\ v_tix (handle_live p) = [0; 5; 6] /\
   map fst (sk p) = [0; 1; 2; 3; 4; 5; 6] /\
   v_lex (handle_ro p) = [0; 1; 2; 5; 6] /\ v_lex (handle_doctor p true true false) = [0; 1; 2; 5; 6] /\
+  map fst (v_vec (handle_doctor p false false true)) = [0; 5; 6] /\ v_vec_on (handle_live p) = true /\
   v_lex (handle_rw p 0) = [0; 1; 2; 5; 6].
 Proof. vm_compute. repeat split; reflexivity. Qed.
 
